@@ -89,7 +89,14 @@ impl DynGroup {
 
             trace!(entries_len = %entries.len());
 
-            let members = ValueSetRefer::from_iter(entries.iter().map(|e| e.get_uuid()));
+            // The scope filter carries no recycle-bin mask of its own: deleted (recycled or
+            // tombstoned) entries that still match it are not members.
+            let members = ValueSetRefer::from_iter(
+                entries
+                    .iter()
+                    .filter(|e| e.mask_recycled_ts().is_some())
+                    .map(|e| e.get_uuid()),
+            );
             trace!(?members);
 
             if let Some(uuid_iter) = members.as_ref().and_then(|a| a.as_ref_uuid_iter()) {
@@ -213,7 +220,9 @@ impl DynGroup {
             let matches: Vec<_> = entries
                 .iter()
                 .filter_map(|e| {
-                    if e.entry_match_no_index(&dg_filter_valid) {
+                    // Recycled and tombstoned entries (which is how replication can hand us
+                    // deleted or conflicted entries) are never members.
+                    if e.mask_recycled_ts().is_some() && e.entry_match_no_index(&dg_filter_valid) {
                         Some(e.get_uuid())
                     } else {
                         None
@@ -352,8 +361,13 @@ impl DynGroup {
                 .iter()
                 .zip(post_entries.iter())
                 .filter_map(|(pre, post)| {
-                    let pre_t = pre.entry_match_no_index(&dg_filter_valid);
-                    let post_t = post.entry_match_no_index(&dg_filter_valid);
+                    // Recycled and tombstoned entries never match: an entry that replication
+                    // turned into a conflict or a deleted entry must leave the group, and must
+                    // not be re-added by a forced update.
+                    let pre_t = pre.mask_recycled_ts().is_some()
+                        && pre.entry_match_no_index(&dg_filter_valid);
+                    let post_t = post.mask_recycled_ts().is_some()
+                        && post.entry_match_no_index(&dg_filter_valid);
 
                     trace!(?post_t, ?force_cand_updates, ?pre_t);
 
@@ -374,6 +388,27 @@ impl DynGroup {
                 .collect();
 
             trace!(?matches);
+
+            // A forced update happens when replication resolved conflicts in this same
+            // operation. The candidate set predates that resolution, so an entry which was
+            // just turned into a conflict still looks live here. Confirm against the
+            // database before (re-)adding it.
+            let matches: Vec<Result<Uuid, Uuid>> = if force_cand_updates {
+                matches
+                    .into_iter()
+                    .map(|choice| match choice {
+                        Ok(u) => qs
+                            .internal_exists(&filter!(f_eq(
+                                Attribute::Uuid,
+                                PartialValue::Uuid(u)
+                            )))
+                            .map(|live| if live { Ok(u) } else { Err(u) }),
+                        Err(u) => Ok(Err(u)),
+                    })
+                    .collect::<Result<Vec<_>, OperationError>>()?
+            } else {
+                matches
+            };
 
             if !matches.is_empty() {
                 let filt = filter!(f_eq(Attribute::Uuid, PartialValue::Uuid(*dg_uuid)));
